@@ -49,13 +49,7 @@
 (define-fun cell ((Mem_Val (Array Int (Array Int Val))) (s Slice) (q Int)) Val (select (select Mem_Val (s-arr s)) q))
 
 ; ---------------------------------------------------------------------
-; alias classification (reflect-based converter is an assumed contract, audited under C12)
-(declare-fun aliasStack (Val) Bool)       ;;@trusted abstract: dynamic type derives from Stack (or pointer to one) and holds a non-nil embedded pointer
-(declare-fun aliasStackOf (Val) Int)      ;;@trusted abstract: the embedded *stack of such a value
-(declare-fun aliasCond (Val) Bool)        ;;@trusted abstract: dynamic type derives from Condition and holds a non-nil embedded pointer
-(declare-fun aliasCondOf (Val) Int)       ;;@trusted abstract: the embedded *condition of such a value
-(assert (forall ((v Val)) (! (=> (aliasStack v) (and (or ((_ is v_other) v) ((_ is v_pStack) v)) (> (aliasStackOf v) 0))) :pattern ((aliasStack v))))) ;;@trusted only foreign types and *Stack convert; result non-nil
-(assert (forall ((v Val)) (! (=> (aliasCond v) (and (or ((_ is v_other) v) ((_ is v_pCond) v)) (> (aliasCondOf v) 0) (not (aliasStack v)))) :pattern ((aliasCond v))))) ;;@trusted only foreign types and *Condition convert; a type derives from at most one of the two
+; (alias classification symbols are declared in 00_base.smt2)
 (define-fun isStackLike ((v Val)) Bool (or ((_ is v_Stack) v) (aliasStack v)))
 (define-fun stackOf ((v Val)) Int (ite ((_ is v_Stack) v) (stack_of v) (ite (aliasStack v) (aliasStackOf v) 0)))
 (define-fun isCondLike ((v Val)) Bool (or ((_ is v_Cond) v) (aliasCond v)))
@@ -84,3 +78,40 @@
        (let ((g (select F_condition_cfg c)))
          (and (< 0 g) (< g alloc) (= (select F_nodeConfig_typ g) #x05)
               (not (= (select F_nodeConfig_log g) 0)) (< (select F_nodeConfig_log g) alloc)))))
+
+; ---------------------------------------------------------------------
+; C07: Traverse(path) = stepwise Index descent (recursive spec over the stack value h, unfolded on ground terms)
+(define-fun stail ((p Slice)) Slice (mk-slice (s-arr p) (+ (s-off p) 1) (- (s-len p) 1) (- (s-cap p) 1)))
+(define-fun p0 ((Mem_Int (Array Int (Array Int Int))) (p Slice)) Int (select (select Mem_Int (s-arr p)) (s-off p)))
+; the element addressed by index i in stack value h, nilv when the index addresses nothing
+(define-fun idxVal ((Mem_Val (Array Int (Array Int Val))) (F_nodeConfig_opt (Array Int (_ BitVec 16))) (h Slice) (i Int)) Val
+  (let ((t (slotOf i (- (s-len h) 1) (select F_nodeConfig_opt (cfgp_of (sslot Mem_Val h 0))))))
+    (ite (= t 0) nilv (sslot Mem_Val h t))))
+; where the walk descends from a non-final element: 0 when it cannot
+(define-fun descend ((F_condition_ex (Array Int Val)) (v Val)) Int
+  (ite (isStackLike v) (stackOf v)
+  (ite (and (isCondLike v) (> (condOf v) 0) (isStackLike (select F_condition_ex (condOf v)))) (stackOf (select F_condition_ex (condOf v))) 0)))
+; no validity policy on the walked path (policies are C14)
+(define-fun-rec WalkDef ((Cell_stack (Array Int Slice)) (Mem_Val (Array Int (Array Int Val))) (Mem_Int (Array Int (Array Int Int))) (F_nodeConfig_opt (Array Int (_ BitVec 16))) (F_nodeConfig_vpf (Array Int Int)) (F_condition_ex (Array Int Val)) (h Slice) (p Slice)) Bool
+  (and (= (select F_nodeConfig_vpf (cfgp_of (sslot Mem_Val h 0))) 0)
+       (or (<= (s-len p) 1)
+           (= (idxVal Mem_Val F_nodeConfig_opt h (p0 Mem_Int p)) nilv)
+           (= (descend F_condition_ex (idxVal Mem_Val F_nodeConfig_opt h (p0 Mem_Int p))) 0)
+           (WalkDef Cell_stack Mem_Val Mem_Int F_nodeConfig_opt F_nodeConfig_vpf F_condition_ex (select Cell_stack (descend F_condition_ex (idxVal Mem_Val F_nodeConfig_opt h (p0 Mem_Int p)))) (stail p)))))
+(define-fun-rec WalkOk ((Cell_stack (Array Int Slice)) (Mem_Val (Array Int (Array Int Val))) (Mem_Int (Array Int (Array Int Int))) (F_nodeConfig_opt (Array Int (_ BitVec 16))) (F_condition_ex (Array Int Val)) (h Slice) (p Slice)) Bool
+  (ite (<= (s-len p) 0) false
+  (ite (= (idxVal Mem_Val F_nodeConfig_opt h (p0 Mem_Int p)) nilv) false
+  (ite (= (s-len p) 1) true
+  (ite (= (descend F_condition_ex (idxVal Mem_Val F_nodeConfig_opt h (p0 Mem_Int p))) 0) false
+       (WalkOk Cell_stack Mem_Val Mem_Int F_nodeConfig_opt F_condition_ex (select Cell_stack (descend F_condition_ex (idxVal Mem_Val F_nodeConfig_opt h (p0 Mem_Int p)))) (stail p)))))))
+; the value reached; a Condition (alias) at the final position is handed back in native form
+(define-fun finalVal ((v Val)) Val (ite (and (isCondLike v) (not (isStackLike v))) (v_Cond (condOf v)) v))
+(define-fun-rec WalkV ((Cell_stack (Array Int Slice)) (Mem_Val (Array Int (Array Int Val))) (Mem_Int (Array Int (Array Int Int))) (F_nodeConfig_opt (Array Int (_ BitVec 16))) (F_condition_ex (Array Int Val)) (h Slice) (p Slice)) Val
+  (ite (<= (s-len p) 0) nilv
+  (ite (= (idxVal Mem_Val F_nodeConfig_opt h (p0 Mem_Int p)) nilv) nilv
+  (ite (= (s-len p) 1) (finalVal (idxVal Mem_Val F_nodeConfig_opt h (p0 Mem_Int p)))
+  (ite (= (descend F_condition_ex (idxVal Mem_Val F_nodeConfig_opt h (p0 Mem_Int p))) 0) nilv
+       (WalkV Cell_stack Mem_Val Mem_Int F_nodeConfig_opt F_condition_ex (select Cell_stack (descend F_condition_ex (idxVal Mem_Val F_nodeConfig_opt h (p0 Mem_Int p)))) (stail p)))))))
+; epoch-stable: these read only cells reachable from their arguments; when the arguments predate the
+; engine's base snapshot they are evaluated on it (so fresh local allocations do not disturb them)
+;;@epoch WalkDef WalkOk WalkV
